@@ -22,7 +22,8 @@ RULE = ("world = seeded valid document kept as segments (1..4 paragraphs x 1..6 
         "multi-line values; values that must be refused) / delete / read through held, fresh "
         "and view handles, plus gc and handle-drop steps; an evaluation is one run; distinct = "
         "distinct (op, paragraph, handle-kind) sequence hash; non-trivial = at least two "
-        "mutations were applied")
+        "mutations were applied"
+        '; later additions: steps without any rendering (fields assigned blindly are pending in the model until the next look), the non-guessing view, set_field_* routes, name tokens (fresh or stale) and library-provided key objects as keys, one call repeated up to 90 times, do-then-undo, an earlier assignment made again, names that are no field names (must be refused), rare line-break characters in values and comments')
 REAL = ["debian._deb822_repro.parsing (parse_deb822_file, paragraph elements, dict mixins, "
         "set_field_*), tokens.py, formatter.py, debian._util (LinkedList, OrderedSet)"]
 STUB = []
